@@ -18,7 +18,7 @@ KEEP = []
 
 # ------------------------------------------------------------------ building
 def nm(k):
-    return f"m{k}"
+    return "serial" if k == 0 else f"m{k}"     # name 0 = Serial's default names
 
 
 def build_conn(spec, B, dt):
@@ -78,7 +78,6 @@ def custom_combine(tensors, **kwargs):
 def build_layer(case, conns, neurs):
     kind = case["kind"]
     if kind == "serial":
-        kw = {}
         if case.get("names_default"):
             return Serial(conns[0], neurs[0], mk_tr(case.get("tr")))
         return Serial(conns[0], neurs[0], mk_tr(case.get("tr")),
@@ -275,6 +274,8 @@ def teq(a, b):
 
 def sig(case, kind, **kw):
     s = {"kind": kind, "layer": case["kind"]}
+    if case["kind"] == "recurrent":
+        s["refrac_t_zero"] = refrac0(case)
     s.update(kw)
     return s
 
@@ -412,8 +413,12 @@ def run_case(case):
                     (z1, z2), ys = (r if cap else (r, None))
                     out = [enc_t(z1), enc_t(z2)] + ([enc_dict(ys, cn)] if cap else [])
                     g_out, g_mid = {nm(nn[0]): z1, nm(nn[1]): z2}, ys
-                check_fwd(case, layer, twin, op, g_out, g_mid, i, fails)
-                check_state(case, layer, twin, i, fails, "after forward")
+                try:
+                    check_fwd(case, layer, twin, op, g_out, g_mid, i, fails)
+                    check_state(case, layer, twin, i, fails, "after forward")
+                except Exception as e:  # noqa
+                    fails.append({"step": i, "what": f"reference raised {type(e).__name__}: {e}"[:300],
+                                  "signature": sig(case, "reference_raised")})
             elif k == "clear":
                 if kind == "recurrent":
                     cf, sub, keep = op[1], op[2], op[3]
